@@ -286,6 +286,45 @@ func TestC07(t *testing.T) {
 				f.ResetVars()
 			}
 		}
+		// the program overwrites the variable between two mocks through one builder: after the second mock the variable
+		// holds the mock again and both methods reach their replacements
+		if fi%nshards == shard && len(f.Methods) >= 2 {
+			for v := 0; v < 2; v++ {
+				f.ResetVars()
+				saved := words(f.Vars[v])
+				b := mocker.Create()
+				c := map[string]interface{}{"iface": f.Name, "variable": v, "scenario": "variable overwritten by the program between two mocks"}
+				type mk = struct {
+					mode string
+					tag  int
+				}
+				m0, m1 := 0, len(f.Methods)-1
+				var perr interface{}
+				func() {
+					defer func() { perr = recover() }()
+					f.Install(b, v, m0, "Apply", 5)
+				}()
+				ok := perr == nil && w.checkCalls(f, v, map[int]mk{m0: {"Apply", 5}}, "first mock", c)
+				if ok {
+					f.ResetVars() // the program's own assignment: the variable is nil / the real implementation again
+					func() {
+						defer func() { perr = recover() }()
+						f.Install(b, v, m1, "Return", 6)
+					}()
+					rep.Eval(1)
+					if perr != nil {
+						rep.Violate("C07/history-step-panicked", fmt.Sprintf("%s: mocking a second method after the program overwrote the variable panicked: %v", f.Name, perr), c)
+					} else if words(f.Vars[v]) == saved {
+						rep.Violate("C07/variable-not-mocked", fmt.Sprintf("%s variable %d: after mocking %s the variable still holds what the program assigned (words %#x), not the mock", f.Name, v, f.Methods[m1], saved), c)
+					} else {
+						w.checkCalls(f, v, map[int]mk{m0: {"Apply", 5}, m1: {"Return", 6}}, "second mock after the program overwrote the variable", c)
+					}
+				}
+				func() { defer func() { recover() }(); b.Reset() }()
+				rep.Class(fmt.Sprintf("history/overwritten-between-mocks/var%d", v))
+			}
+			f.ResetVars()
+		}
 		// two variables of the same type in one builder
 		if fi%nshards == shard {
 			f.ResetVars()
